@@ -174,7 +174,7 @@ def run_faults(pid, tier, seed):
                             if kk.startswith("src/") and kk[4:] in files or kk == "Breadlog.lock":
                                 continue
                             if (snap0.get(kk) or ())[:2] != (snap1.get(kk) or ())[:2]:
-                                bad("C07", "another project file changed: %s (%s)" % (kk, ctx["fault"]), ctx)
+                                bad("C07,C08" if kk not in snap0 else "C07", "another project file %s: %s (%s)" % ("appeared" if kk not in snap0 else "changed", kk, ctx["fault"]), ctx)
                         if rc == "timeout":
                             bad("C17", "the run did not terminate (%s)" % ctx["fault"], ctx)
                         # a source file that cannot be READ is reported and skipped (C17); C08 is about files whose new content could not be created, written or moved
